@@ -533,7 +533,20 @@ impl std::fmt::Display for Scad {
         for i in 0..self.children.len() {
             write!(f, "{}", self.children[i])?;
         }
-        if !self.children.is_empty() {
+        let is_leaf = matches!(
+            self.op,
+            ScadOp::Circle { .. }
+                | ScadOp::Square { .. }
+                | ScadOp::Polygon { .. }
+                | ScadOp::Text { .. }
+                | ScadOp::Import { .. }
+                | ScadOp::Sphere { .. }
+                | ScadOp::Cube { .. }
+                | ScadOp::Cylinder { .. }
+                | ScadOp::Polyhedron { .. }
+                | ScadOp::Surface { .. }
+        );
+        if !is_leaf {
             write!(f, "}}")?;
         }
         writeln!(f)
